@@ -232,7 +232,7 @@ pub fn set_sched_hook(hook: Option<fn(&'static str)>) {
 }
 
 #[inline]
-pub(crate) fn point(name: &'static str) {
+pub fn point(name: &'static str) {
     if let Some(h) = SCHED_HOOK.with(|h| h.get()) {
         h(name);
     }
